@@ -82,6 +82,60 @@ def oracle_c09(sc, g):
     return None
 
 
+def oracle_c06(sc, g):
+    """implementation only: the required options of the parser and the active chain that are not set (Option.IsSet, observed
+    after the parse) are exactly the ones ErrRequired names; nothing is executed then; no ErrRequired about options otherwise"""
+    import re
+    if "meta" not in sc:
+        return None
+    d = sc["cfg"]["nsdelim"]
+    for o, r in zip(sc["ops"], g["ops"]):
+        if o["op"] != "parse" or r.get("panic"):
+            continue
+        e = scen.decode_err(r["err"])
+        if e is not None and not (e[0] == "F" and e[1] in (7, 11, 12)):
+            continue                    # an error of the argument loop: the required check is not reached
+        node = sc["meta"]
+        chain = [node]
+        try:
+            for idx in [int(x) for x in r.get("active", "").split(".") if x != ""]:
+                node = node["subs"][idx]
+                chain.append(node)
+        except (IndexError, ValueError):
+            continue
+        bits = {}
+        for ent in r.get("set", "").split(";"):
+            if ent:
+                k, _, b = ent.rpartition(":")
+                bits[k] = b
+        missing = set()
+        for nd in chain:
+            for info in nd["opts"]:
+                if not info.get("required"):
+                    continue
+                sh = info["short"].decode("utf-8", "replace") if info["short"] else ""
+                key = "%s|%s|%d" % (info["field"].hex(), (info["long"] or b"").hex(), ord(sh) if len(sh) == 1 else 0)
+                b = bits.get(key)
+                if b is None or b[0] == "1":
+                    continue            # not a live option of the parser (nil pointer struct ...) or supplied
+                name = []
+                if info["short"]: name.append(b"-" + info["short"])
+                if info["long"]: name.append(b"--" + d.join([n for n in info.get("ns", ()) if n] + [info["long"]]))
+                missing.add(b", ".join(name))
+        ex = [x for x in r.get("exec", "").split(";") if x]
+        if missing:
+            if not (e is not None and e[1] == 7):
+                return "required option(s) %r were not supplied but the parse did not fail with ErrRequired (%r)" % (sorted(missing), e)
+            named = set(re.findall(rb"`([^']*)'", e[2]))
+            if named != missing:
+                return "ErrRequired names %r, the missing required options are %r" % (sorted(named), sorted(missing))
+            if ex:
+                return "a command was executed although required options are missing"
+        elif e is not None and e[1] == 7 and not e[2].startswith(b"the required argument"):
+            return "ErrRequired about options although every required option of the parser and the active chain is set: %r" % (e[2][:120],)
+    return None
+
+
 def combine(*fs):
     def f(sc, g):
         for x in fs:
@@ -112,7 +166,7 @@ CONFIG = {
                 keys=["panic", "err", "vals", "set"], transform=t_err_type_only, theorems="C05_*"),
     "C06": dict(profile=dict(p_addoption=0.08, p_required=0.45, p_positional=0.6, p_pos_required=0.7, p_commands=0.6, p_bad_value=0.01, p_ev_unknown=0.01, p_ev_garbage=0.0,
                              p_default=0.1, n_events=(0, 7), p_mutate_argv=0.02),
-                keys=["panic", "err", "exec", "set"], transform=common.hide_help, oracle=oracle_c09, theorems="C06_*"),
+                keys=["panic", "err", "exec", "set"], transform=common.hide_help, oracle=combine(oracle_c09, oracle_c06), theorems="C06_*"),
     "C07": dict(profile=dict(p_ev_unknown=0.3, p_wrong_scope=0.3, p_ignore=0.35, p_handler=0.45, p_required=0.02, p_commands=0.6, p_bad_value=0.02,
                              p_namespace=0.8, p_group=0.4, p_ev_cmd=0.2, max_depth=3, p_subopt=0.4, p_sibling_cmd=0.35),
                 keys=["panic", "err", "unknown", "ret", "vals"], transform=common.hide_help, theorems="C07_*"),
